@@ -28,6 +28,8 @@ def run(chk):
     a64common.rule_tables(chk, A)
     from lib import relocrules
     relocrules.bound_unbound(chk, [emit])
+    from lib import opkind
+    opkind.run(chk, emit, floor=150)
 
     return chk.finish(
         level="other",
